@@ -438,6 +438,9 @@ def fault_family(tier, rng):
         ("bca", 3, [(1, "s0", 1), (1, "s1", 0)], {0, 1, 2}, [("touch", 0), ("touch", 2), ("touch", 1)], "collect"),
         ("shared_tail", 3, NAMED3["shared_tail"], set(), [("release", 0), ("release", 1), ("release", 2)], "collect"),
         ("untraced_pin", 3, NAMED3["untraced_pin"], {2}, [("release", 0), ("release", 1), ("touch", 2)], "collect"),
+        # two roots, the first one points to the second: a fault in the ROOT-tracing phase must leave the second usable
+        ("qr", 2, [(0, "s0", 0), (0, "s1", 1)], {0, 1}, [("touch", 1), ("touch", 0)], "collect"),
+        ("qr_rev", 2, [(0, "s0", 0), (0, "s1", 1)], {0, 1}, [("touch", 0), ("touch", 1)], "collect"),
         ("rc_chain", 2, [(0, "s0", 1)], {0}, [("release", 1)], "release0"),
         ("rc_single_buffered", 1, [], {0}, [("touch", 0)], "release0"),
     ]
@@ -447,7 +450,7 @@ def fault_family(tier, rng):
             if kind in (1, 4) and script != "collect":
                 continue
             for k in range(1, kmax[kind] + 1):
-                quick = (k <= 2 and nm in ("two_cycle", "bca", "lasso", "rc_chain", "two_cycle_held")) or (k == 3 and nm == "bca" and kind == 1)
+                quick = (k <= 2 and nm in ("two_cycle", "bca", "lasso", "rc_chain", "two_cycle_held")) or (k <= 5 and nm == "bca" and kind == 1) or (nm in ("qr", "qr_rev") and kind in (1, 4) and k <= 4)
                 feats = ["full", "fin"] if kind == 2 else ["full", "std"]
                 out.append(Inst(n, e, held, order, fault=(kind, k), script=script, family="fault%d_%s" % (kind, nm), props=P7,
                                 feats=feats, tier="quick" if quick else "thorough"))
